@@ -455,22 +455,32 @@ def check_C16(tier):
             rep.violation("the working tree's INDEX_ALPHABET differs from the documented order", {"assumption": f})
     digits = IDX + ["[F]", "[=Ring1]"]
     inputs = []
-    # one and two index symbols, and a missing symbol at the end
+    rng = random.Random(seed() + 16)
+    # one index symbol, and a missing symbol at the end of the string
     for a in digits:
         inputs.append(["[C]"] * 20 + ["[Ring1]", a, "[C]"])
         inputs.append(["[C]"] * 3 + ["[Branch1]", a] + ["[C]"] * 18)
         inputs.append(["[C]"] * 20 + ["[Ring2]", a])
-        for b in digits:
-            inputs.append(["[C]"] * 300 + ["[Ring2]", a, b, "[C]"])
-            inputs.append(["[C]"] * 3 + ["[Branch2]", a, b] + ["[C]"] * 270 + ["[O]"])
-    tri = [(a, b, c) for a in digits[:2] + ["[F]"] for b in digits for c in digits]
+        inputs.append(["[C]"] * 20 + ["[Ring3]", a])
+    # two index symbols: every pair (thorough) / a sample of pairs covering every digit in both places (quick)
+    pairs = [(a, b) for a in digits for b in digits]
     if quick:
-        rng = random.Random(seed() + 16)
-        tri = rng.sample(tri, 150)
-    else:
-        tri += [(a, b, c) for a in digits[2:5] for b in digits[::3] for c in digits[::5]]
+        pairs = [(a, digits[(i * 7 + 3) % len(digits)]) for i, a in enumerate(digits)] + \
+                [(digits[(i * 5 + 1) % len(digits)], b) for i, b in enumerate(digits)] + rng.sample(pairs, 20)
+    for a, b in pairs:
+        q = 16 * (IDX.index(a) if a in IDX else 0) + (IDX.index(b) if b in IDX else 0)
+        inputs.append(["[C]"] * (q + 4) + ["[Ring2]", a, b, "[C]"])
+        if not quick or rng.random() < 0.3:
+            inputs.append(["[C]"] * 3 + ["[Branch2]", a, b] + ["[C]"] * (q + 3) + ["[O]"])
+    # three index symbols
+    tri = [(a, b, c) for a in digits[:3] + ["[F]"] for b in digits for c in digits]
+    tri = rng.sample(tri, 24 if quick else 400)
+    if not quick:
+        tri += [(a, b, c) for a in digits[3:6] for b in digits[::5] for c in digits[::7]]
     for a, b, c in tri:
-        inputs.append(["[C]"] * (600 if a in digits[:2] + ["[F]"] else 1300) + ["[Ring3]", a, b, c, "[C]"])
+        q = 256 * (IDX.index(a) if a in IDX else 0) + 16 * (IDX.index(b) if b in IDX else 0) + \
+            (IDX.index(c) if c in IDX else 0)
+        inputs.append(["[C]"] * (q + 4) + ["[Ring3]", a, b, c, "[C]"])
     recs = de.record_decoder(inputs, "default")
     for rec in recs:
         rep.case(tuple(rec["inp"][-5:]) + (len(rec["inp"]),), nontrivial=True)
